@@ -139,6 +139,32 @@ def pint_prefixes():
     return out
 
 
+def spelling_tables(own):
+    """identifier spellings -> canonical unit name, and prefix spellings -> canonical prefix name, for the model of pint's
+    name resolution (Model/UnitsText.v).  Unit spellings: every name/alias ureg.py defines, plus name, symbol and aliases that the
+    installed pint gives each whitelisted plain unit (ASCII spellings only). Trusted data, read from pint."""
+    u = fresh_pint()
+    ids = {}
+    for n in PLAIN_WHITELIST:
+        d = u._units[n]
+        for sp in [d.name, d.defined_symbol] + list(d.aliases):
+            if sp and sp.isascii() and re.fullmatch(r"[A-Za-z_][A-Za-z_0-9]*", sp):
+                if sp in ids and ids[sp] != n:
+                    raise TranslateError(f"pint: spelling {sp!r} names both {ids[sp]!r} and {n!r}")
+                ids[sp] = n
+    for sp, prim in own.items():          # ureg.py's definitions override pint's
+        ids[sp] = prim
+    pre = {}
+    for p in SI_PREFIX_NAMES:
+        d = u._prefixes[p]
+        for sp in [d.name, d.defined_symbol] + list(d.aliases):
+            if sp and sp.isascii() and re.fullmatch(r"[A-Za-z]+", sp):
+                if sp in pre and pre[sp] != p:
+                    raise TranslateError(f"pint: prefix spelling {sp!r} is ambiguous")
+                pre[sp] = p
+    return ids, pre
+
+
 def resolve_plain_token(tok):
     """A token of a right-hand side / CODATA unit string that ureg.py does not define itself: ask pint's parser
     (trusted) for (prefix, canonical unit)."""
@@ -606,6 +632,10 @@ def generate(repo):
     out.append("(* pint Contexts: source dimension, target dimension, transformer *)")
     out.append("Definition bridges : list (list Z * list Z * hop) := [\n  " + ";\n  ".join(
         f"({clist(DIM_EXPR[s], cz)}, {clist(DIM_EXPR[d], cz)}, {h})" for s, d, h in contexts) + " ].")
+    ids, pre = spelling_tables(own)
+    out.append("(* spellings (names, symbols, aliases) -> canonical unit name; prefix spellings -> canonical prefix (trusted data from pint + ureg.py's own aliases) *)")
+    out.append("Definition ident_table : list (string * string) := [\n  " + ";\n  ".join(f"({cstr(k)}, {cstr(v)})" for k, v in sorted(ids.items())) + " ].")
+    out.append("Definition prefix_spellings : list (string * string) := [ " + "; ".join(f"({cstr(k)}, {cstr(v)})" for k, v in sorted(pre.items(), key=lambda kv: (-len(kv[0]), kv[0]))) + " ].")
     coqrun.write_if_changed(os.path.join(coqrun.COQ, "Gen", "UregDefs.v"), "\n".join(out) + "\n")
-    return {"raw": raw, "defs": defs, "au_defs": au_defs, "own": own, "plain": plain, "prefixes": prefixes,
+    return {"raw": raw, "defs": defs, "au_defs": au_defs, "own": own, "plain": plain, "prefixes": prefixes, "ids": ids, "prefix_spellings": pre,
             "contexts": raw["contexts"], "shipped": shipped}
